@@ -137,12 +137,8 @@ pub fn sweep(rep: &mut Report, flags: Flags, part_name: &str, filter: &dyn Fn(&s
                 cfg5.stride = 4;
                 cfg5.offset = *i % 4;
                 for (evname, ev) in [("sequential", EvKind::Sequential), ("parallel", EvKind::Parallel(4))] {
-                    let body5 = || {
-                        crate::subject::templates::NOISY_OBJECTIVE.with(|v| v.set(true));
-                        let r = spec.run(flags, &ev);
-                        crate::subject::templates::NOISY_OBJECTIVE.with(|v| v.set(false));
-                        r
-                    };
+                    // (carried in the flags, not in a thread-local: while a run blocks in a thread pool its thread may run other explorer jobs)
+                    let body5 = || spec.run(Flags { noisy: true, ..flags }, &ev);
                     tape::explore_par(&cfg5, &body5, &|prefix, out, _log| {
                         let mut sub = sub.lock().unwrap();
                         sub.traces += 1;
@@ -167,12 +163,7 @@ pub fn sweep(rep: &mut Report, flags: Flags, part_name: &str, filter: &dyn Fn(&s
                 let mut cfg4 = tape_cfg(&sc, &spec.name(), *seed, *i);
                 cfg4.stride = 3;
                 cfg4.offset = *i % 3;
-                let body4 = || {
-                    crate::subject::templates::COND_VARIANT.with(|v| v.set(1));
-                    let r = spec.run(flags, &EvKind::Sequential);
-                    crate::subject::templates::COND_VARIANT.with(|v| v.set(0));
-                    r
-                };
+                let body4 = || spec.run(Flags { budget_or_optimum: true, ..flags }, &EvKind::Sequential);
                 tape::explore_par(&cfg4, &body4, &|prefix, out, _log| {
                     let mut sub = sub.lock().unwrap();
                     sub.traces += 1;
@@ -254,7 +245,7 @@ pub fn flags_json(f: Flags) -> Value {
 pub fn replay(case: &Value) -> Result<Vec<(String, String)>, String> {
     if let Some(name) = case["large"].as_str() {
         let fl = case["flags"].as_array().ok_or("no flags")?;
-        let flags = Flags { c05: fl[0].as_bool().unwrap(), c06: fl[1].as_bool().unwrap(), c07: fl[2].as_bool().unwrap(), c16: fl[3].as_bool().unwrap() };
+        let flags = Flags { c05: fl[0].as_bool().unwrap(), c06: fl[1].as_bool().unwrap(), c07: fl[2].as_bool().unwrap(), c16: fl[3].as_bool().unwrap(), ..Default::default() };
         let specs = large_specs(case["iters"].as_u64().unwrap_or(60) as u32);
         let spec = specs.iter().find(|s| s.name() == name).ok_or("spec not found")?;
         let ev = if case["parallel"].as_bool() == Some(true) { EvKind::Parallel(if flags.c16 { 72 } else { 4 }) } else { EvKind::Sequential };
@@ -263,7 +254,7 @@ pub fn replay(case: &Value) -> Result<Vec<(String, String)>, String> {
     let name = case["spec"].as_str().ok_or("no spec")?;
     let seed = case["seed"].as_u64().unwrap_or(0);
     let fl = case["flags"].as_array().ok_or("no flags")?;
-    let flags = Flags { c05: fl[0].as_bool().unwrap(), c06: fl[1].as_bool().unwrap(), c07: fl[2].as_bool().unwrap(), c16: fl[3].as_bool().unwrap() };
+    let flags = Flags { c05: fl[0].as_bool().unwrap(), c06: fl[1].as_bool().unwrap(), c07: fl[2].as_bool().unwrap(), c16: fl[3].as_bool().unwrap(), ..Default::default() };
     let iters = case["iters"].as_u64().unwrap_or(2) as u32;
     let thorough = case["thorough"].as_bool().unwrap_or(false);
     let tape: Vec<u32> = case["tape"].as_array().ok_or("no tape")?.iter().map(|x| x.as_u64().unwrap() as u32).collect();
@@ -282,12 +273,7 @@ pub fn replay(case: &Value) -> Result<Vec<(String, String)>, String> {
     };
     if let Some(evname) = case["noisy"].as_str() {
         let ev = if evname == "parallel" { EvKind::Parallel(4) } else { EvKind::Sequential };
-        let (out, _) = tape::run_once(&cfg, &tape, || {
-            crate::subject::templates::NOISY_OBJECTIVE.with(|v| v.set(true));
-            let r = spec.run(flags, &ev);
-            crate::subject::templates::NOISY_OBJECTIVE.with(|v| v.set(false));
-            r
-        });
+        let (out, _) = tape::run_once(&cfg, &tape, || spec.run(Flags { noisy: true, ..flags }, &ev));
         return match out {
             Outcome::Done(o) => Ok(o.violations),
             Outcome::Panic(m) => Err(format!("harness panic: {}", m)),
@@ -295,12 +281,7 @@ pub fn replay(case: &Value) -> Result<Vec<(String, String)>, String> {
         };
     }
     let cv = case["cond_variant"].as_u64().unwrap_or(0) as u8;
-    let (out, _) = tape::run_once(&cfg, &tape, || {
-        crate::subject::templates::COND_VARIANT.with(|v| v.set(cv));
-        let r = spec.run(flags, &ev);
-        crate::subject::templates::COND_VARIANT.with(|v| v.set(0));
-        r
-    });
+    let (out, _) = tape::run_once(&cfg, &tape, || spec.run(Flags { budget_or_optimum: cv == 1, ..flags }, &ev));
     match out {
         Outcome::Done(o) if cv == 1 => Ok(o.violations.into_iter().map(|(s, d)| (format!("{} termination=budget-or-optimum", s), d)).collect()),
         Outcome::Done(o) => Ok(o.violations),
